@@ -141,8 +141,12 @@ def run_plan(plan, seed, choices=None):
             V.add('C41/descending', 'beta-version-sent', 'version 6 (beta) was sent%s' % ('' if plan['allow_beta'] else ' although allow_beta_protocol_version is off'))
             break
     # after the lowest version (1) was rejected by a host nothing further goes to that host
+    # (only while the version is being negotiated: once some node has accepted a version the cluster speaks it, and a host that cannot -
+    # a mixed-version cluster - is legitimately tried again by pool creation and by its reconnector)
+    accepted_at = [f[0] for f in frames if f[3] in fc.nodes[f[1]].versions or (f[3] in fc.nodes[f[1]].beta_versions and f[5])]
+    negotiated = min(accepted_at) if accepted_at else 10 ** 12
     for i, nd in enumerate(fc.nodes):
-        mine = [f for f in frames if f[1] == i]
+        mine = [f for f in frames if f[1] == i and f[0] <= negotiated]
         for k, f in enumerate(mine):
             if f[3] == 1 and 1 not in nd.versions and k + 1 < len(mine) and explicit is None:
                 V.add('C41/terminates', 'attempt-after-lowest-rejected', 'node %d rejected version 1 and was tried again with %r' % (i, [x[3] for x in mine[k + 1:]][:5]))
